@@ -16,18 +16,21 @@ def cmp_dom(ks):
     return d
 
 
-def mk(family, sexpr, rexpr, order, v, celltype, domains, optimize=True, tag=""):
+def mk(family, sexpr, rexpr, order, v, celltype, domains, optimize=True, tag="", early=False):
     if v[0] != "int":
         v = ("proj", v, celltype)      # a signal value must be of the cell's type
-    body = [("mem", "l", celltype), ("latch", "l", v, sexpr, rexpr, order),
-            ("decl", "Signal", "o0", ("read", "l")),
-            ("decl", "Signal", "o1", B("*", ("read", "l"), I(2)))]
+    body = [("mem", "l", celltype)]
+    if early:     # a reader that stands BEFORE the latch write in the program text
+        body.append(("decl", "Signal", "oe", B("*", ("read", "l"), I(3))))
+    body += [("latch", "l", v, sexpr, rexpr, order),
+             ("decl", "Signal", "o0", ("read", "l")),
+             ("decl", "Signal", "o1", B("*", ("read", "l"), I(2)))]
     used = set()
     for e in (sexpr, rexpr, v):
         gen.vars_in(e, used)
     inputs = [n for n in gen.INPUT_DECL if n in used]
     return {"family": family, "tag": tag, "order": order, "stmts": gen.prog_with_inputs(inputs, body),
-            "inputs": inputs, "domains": {i: domains[i] for i in inputs}, "outputs": ["o0", "o1"],
+            "inputs": inputs, "domains": {i: domains[i] for i in inputs}, "outputs": ["o0", "o1"] + (["oe"] if early else []),
             "sexpr": sexpr, "rexpr": rexpr, "v": v, "celltype": celltype, "opts": {"optimize": optimize}}
 
 
@@ -101,7 +104,7 @@ class C05(core.Check):
     rule = ("explicit-state BFS to closure over events 'set one input to another boundary value, hold until settled' "
             "for every latch program (both argument orders; set/reset as raw signals, as comparisons on one shared "
             "input with every comparator pair and disjoint/touching/overlapping thresholds, or on different inputs; "
-            "v = 1, 7 or a signal); reference latch S&!R->on, R&!S->off, S&R->first named, else hold; "
+            "v = 1, 7 or a signal; readers after the write and, in the early-reader family, also before it); reference latch S&!R->on, R&!S->off, S&R->first named, else hold; "
             "non-trivial = at least two different observations reached")
     assumptions = ["circuit model fv/sim.py (AND binds tighter than OR in multi-condition deciders)",
                    "reference latch as in the property statement"]
@@ -138,6 +141,13 @@ class C05(core.Check):
                             continue
                         out.append(mk("shared", B(cs, V("x"), I(lo)), B(cr, V("x"), I(hi)), order, v, "signal-L",
                                       {"x": cmp_dom([lo, hi]), "d": [0, 3, -4]}, tag=f"{cs}{lo}/{cr}{hi}/{vn}"))
+        # a reader placed before the latch write (standard and inlined latch)
+        for order in ("sr", "rs"):
+            for vn, v in (("1", I(1)), ("7", I(7))):
+                out.append(mk("early-reader", B(">", V("s"), I(0)), B(">", V("t"), I(0)), order, v, "signal-L",
+                              {"s": RAW_DOM, "t": RAW_DOM}, tag=f"early/two/{vn}", early=True))
+                out.append(mk("early-reader", B("<", V("x"), I(20)), B(">=", V("x"), I(80)), order, v, "signal-L",
+                              {"x": cmp_dom([20, 80])}, tag=f"early/shared/{vn}", early=True))
         out += two_latch_cases(tier)
         if tier == "thorough":
             out += [dict(c, opts={"optimize": False}) for c in list(out)]
@@ -174,7 +184,10 @@ class C05(core.Check):
         def ref_expect(on, val):
             _, _, vv = srv(val)
             q = vv if on else 0
-            return {"o0": lang.Sig(ct, q), "o1": lang.Sig(ct, q * 2)}
+            exp = {"o0": lang.Sig(ct, q), "o1": lang.Sig(ct, q * 2)}
+            if "oe" in case["outputs"]:
+                exp["oe"] = lang.Sig(ct, q * 3)
+            return exp
 
         return explore.run_bfs(stmts, inputs, case["domains"], case["opts"], case["outputs"],
                                None, ref_step, ref_expect)
